@@ -210,6 +210,67 @@ impl<E: Endianness, BR: BitRead<E> + RExtra> RExtra for CountBitReader<E, BR> {
     }
 }
 
+// ------------------------------------------------------------------ tracing wrappers (utils/dbg_codes.rs)
+impl<E: Endianness, W: BitWrite<E>> WExtra for DbgBitWriter<E, W> {}
+
+/// DbgBitReader has no BitSeek: give it one that always fails, so that it fits the object view
+pub struct NoSeek<T>(pub T);
+#[derive(Debug)]
+pub struct NoSeekErr;
+impl std::fmt::Display for NoSeekErr {
+    fn fmt(&self, f: &mut std::fmt::Formatter<'_>) -> std::fmt::Result {
+        write!(f, "not seekable")
+    }
+}
+impl std::error::Error for NoSeekErr {}
+impl<T> BitSeek for NoSeek<T> {
+    type Error = NoSeekErr;
+    fn bit_pos(&mut self) -> Result<u64, NoSeekErr> {
+        Err(NoSeekErr)
+    }
+    fn set_bit_pos(&mut self, _p: u64) -> Result<(), NoSeekErr> {
+        Err(NoSeekErr)
+    }
+}
+impl<E: Endianness, T: BitRead<E>> BitRead<E> for NoSeek<T> {
+    type Error = T::Error;
+    type PeekWord = T::PeekWord;
+    fn read_bits(&mut self, n: usize) -> Result<u64, Self::Error> {
+        self.0.read_bits(n)
+    }
+    fn peek_bits(&mut self, n: usize) -> Result<Self::PeekWord, Self::Error> {
+        self.0.peek_bits(n)
+    }
+    fn skip_bits(&mut self, n: usize) -> Result<(), Self::Error> {
+        self.0.skip_bits(n)
+    }
+    fn skip_bits_after_peek(&mut self, n: usize) {
+        self.0.skip_bits_after_peek(n)
+    }
+    fn read_unary(&mut self) -> Result<u64, Self::Error> {
+        self.0.read_unary()
+    }
+}
+impl<E: Endianness, T: GammaRead<E>> GammaRead<E> for NoSeek<T> {
+    fn read_gamma(&mut self) -> Result<u64, Self::Error> {
+        self.0.read_gamma()
+    }
+}
+impl<E: Endianness, T: DeltaRead<E>> DeltaRead<E> for NoSeek<T> {
+    fn read_delta(&mut self) -> Result<u64, Self::Error> {
+        self.0.read_delta()
+    }
+}
+impl<E: Endianness, T: ZetaRead<E>> ZetaRead<E> for NoSeek<T> {
+    fn read_zeta(&mut self, k: usize) -> Result<u64, Self::Error> {
+        self.0.read_zeta(k)
+    }
+    fn read_zeta3(&mut self) -> Result<u64, Self::Error> {
+        self.0.read_zeta3()
+    }
+}
+impl<T> RExtra for NoSeek<T> {}
+
 // ------------------------------------------------------------------ generic object impls
 pub struct WObj<E, T> {
     pub w: T,
@@ -506,7 +567,9 @@ macro_rules! mk_writer_e {
 }
 macro_rules! wrap_w {
     ($E:ty, $bw:expr, $count:expr, $obs:expr) => {{
-        if $count {
+        if $count == 2 {
+            (Box::new(WObj::<$E, _> { w: DbgBitWriter::<$E, _>::new($bw), _m: PhantomData }) as Box<dyn ObjW>, $obs)
+        } else if $count == 1 {
             (Box::new(WObj::<$E, _> { w: CountBitWriter::<$E, _>::new($bw), _m: PhantomData }) as Box<dyn ObjW>, $obs)
         } else {
             (Box::new(WObj::<$E, _> { w: $bw, _m: PhantomData }) as Box<dyn ObjW>, $obs)
@@ -526,7 +589,7 @@ macro_rules! mk_writer {
     };
 }
 
-pub fn make_writer(le: bool, wbits: u128, backend: u128, cap: usize, count: bool) -> (Box<dyn ObjW>, Observer) {
+pub fn make_writer(le: bool, wbits: u128, backend: u128, cap: usize, count: u128) -> (Box<dyn ObjW>, Observer) {
     if le {
         mk_writer!(LE, wbits, backend, cap, count)
     } else {
@@ -536,7 +599,9 @@ pub fn make_writer(le: bool, wbits: u128, backend: u128, cap: usize, count: bool
 
 macro_rules! wrap_r {
     ($E:ty, $br:expr, $count:expr) => {{
-        if $count {
+        if $count == 2 {
+            Box::new(RObj::<$E, _> { r: NoSeek(DbgBitReader::<$E, _>::new($br)), _m: PhantomData }) as Box<dyn ObjR>
+        } else if $count == 1 {
             Box::new(RObj::<$E, _> { r: CountBitReader::<$E, _>::new($br), _m: PhantomData }) as Box<dyn ObjR>
         } else {
             Box::new(RObj::<$E, _> { r: $br, _m: PhantomData }) as Box<dyn ObjR>
@@ -581,7 +646,7 @@ macro_rules! mk_reader {
         }
     };
 }
-pub fn make_reader(le: bool, rbits: u128, backend: u128, strict: bool, count: bool, data: &[u8]) -> Box<dyn ObjR> {
+pub fn make_reader(le: bool, rbits: u128, backend: u128, strict: bool, count: u128, data: &[u8]) -> Box<dyn ObjR> {
     if le {
         mk_reader!(LE, rbits, backend, strict, count, data)
     } else {
@@ -598,8 +663,8 @@ pub fn run_world(hdr: &Group, data: &Group, ops: &[Group]) -> Vec<Group> {
     let wcap = a(hdr, 3) as usize;
     let rbits = a(hdr, 4);
     let rstrict = a(hdr, 5) != 0;
-    let wcount = a(hdr, 6) != 0;
-    let rcount = a(hdr, 7) != 0;
+    let wcount = a(hdr, 6);
+    let rcount = a(hdr, 7);
     let wbackend = a(hdr, 8);
     let rbackend = a(hdr, 9);
     let mut bytes: Vec<u8> = Vec::with_capacity(data.len());
@@ -723,7 +788,7 @@ pub fn probe_diagnostics() {
     let data = [0u8; 64];
     for (name, rbits) in [("u8", 8u128), ("u16", 16), ("u32", 32), ("u64", 64), ("unbuffered", 0)] {
         eprintln!("PROBE {} BEGIN", name);
-        let _r = make_reader(false, rbits, 0, false, false, &data);
+        let _r = make_reader(false, rbits, 0, false, 0, &data);
         eprintln!("PROBE {} END", name);
     }
 }
